@@ -3,6 +3,8 @@
 package cl
 
 import (
+	"math/big"
+
 	"github.com/ohler55/slip"
 )
 
@@ -36,27 +38,23 @@ type Gcd struct {
 
 // Call the function with the arguments provided.
 func (f *Gcd) Call(s *slip.Scope, args slip.List, depth int) slip.Object {
-	z := slip.Fixnum(0)
-	for i, a := range args {
+	// The magnitude of the most negative fixnum is not a fixnum so the
+	// result is built with big integers.
+	var z big.Int
+	for _, a := range args {
 		num, ok := a.(slip.Fixnum)
 		if !ok {
 			slip.TypePanic(s, depth, "integers", a, "fixnum")
 		}
-		if num < 0 {
-			num = -num
-		}
-		if i == 0 { // first one
-			z = num
-		} else {
-			z = gcd(z, num)
-		}
+		z.GCD(nil, nil, &z, new(big.Int).Abs(big.NewInt(int64(num))))
 	}
-	return z
+	return integerObject(&z)
 }
 
-func gcd(x, y slip.Fixnum) slip.Fixnum {
-	for y != 0 {
-		x, y = y, x%y
+// integerObject returns the fixnum or, when too large, the bignum with the value.
+func integerObject(z *big.Int) slip.Object {
+	if z.IsInt64() {
+		return slip.Fixnum(z.Int64())
 	}
-	return x
+	return (*slip.Bignum)(z)
 }
